@@ -234,6 +234,73 @@ func c54Scenario(name string, ops []c54Op, watchSvcs []string, check bool, bound
 	}}
 }
 
+// Shutdown called by one goroutine while another one is in SetServingStatus:
+// "Shutdown sets all serving status to NOT_SERVING, and configures the server to
+// ignore all future status changes" — once Shutdown has returned, Check must
+// report NOT_SERVING whatever the interleaving with the concurrent setter, and
+// a Watch stream's last message must be NOT_SERVING.
+func c54ShutdownRaceScenario(name string, nSetters int, bound int) vsched.Scenario {
+	return vsched.Scenario{Name: name, Bound: bound, MinOutcomes: 1, Body: func(x *vsched.X) {
+		srv := NewServer()
+		srv.SetServingStatus("svc", c54NotServing)
+		var mu sync.Mutex
+		l := &c54Ledger{hist: map[string][]c54Status{}}
+		ctx, cancel := context.WithCancel(context.Background())
+		st := &c54Stream{id: 0, ctx: ctx, cancel: cancel, l: l, svc: "svc"}
+		x.Go("watch0(svc)", func() {
+			srv.Watch(&healthpb.HealthCheckRequest{Service: "svc"}, st)
+		})
+		for i := 0; i < nSetters; i++ {
+			x.Go(fmt.Sprintf("setter%d", i), func() {
+				vsched.Yield()
+				srv.SetServingStatus("svc", c54Serving)
+			})
+		}
+		shutdownReturned := false
+		x.Go("shutdown", func() {
+			vsched.Yield()
+			srv.Shutdown()
+			mu.Lock()
+			shutdownReturned = true
+			mu.Unlock()
+		})
+		released := false
+		x.OnStuck(func() bool {
+			// quiescent: setters and Shutdown are done, the watcher is parked
+			if released {
+				return false
+			}
+			released = true
+			cancel()
+			return true
+		})
+		x.Final(func(x *vsched.X) {
+			for _, p := range x.Panics {
+				x.Fail("C54", "panic", "%s", p)
+			}
+			mu.Lock()
+			ret := shutdownReturned
+			mu.Unlock()
+			if !ret {
+				x.Fail("C54", "shutdown-hangs", "Shutdown has not returned (%s)", x.Stuck)
+				return
+			}
+			resp, err := srv.Check(context.Background(), &healthpb.HealthCheckRequest{Service: "svc"})
+			if err != nil || resp.Status != c54NotServing {
+				x.Fail("C54", "serving-after-shutdown", "Shutdown returned, every SetServingStatus call has returned, yet Check reports %v (err %v): a status change was applied after Shutdown", resp.GetStatus(), err)
+			}
+			l.mu.Lock()
+			sent := append([]c54Status(nil), st.sent...)
+			l.mu.Unlock()
+			if n := len(sent); n > 0 && sent[n-1] != c54NotServing {
+				x.Fail("C54", "watch-last-not-latest-after-shutdown", "the Watch stream's last message is %v after Shutdown returned (sent %v)", sent[n-1], sent)
+			}
+			x.Outcome(fmt.Sprintf("sent=%v", sent))
+		})
+		x.Cleanup(cancel)
+	}}
+}
+
 func TestVerif_C54_Health(t *testing.T) {
 	const P = "C54"
 	r := vk.Start(t, "c54_health", "exploration", P)
@@ -248,6 +315,7 @@ func TestVerif_C54_Health(t *testing.T) {
 		c54Scenario("register/watch-unknown", []c54Op{set("new", c54NotServing), set("new", c54Serving)}, []string{"new"}, false, b+1),
 		c54Scenario("shutdown-resume/watch1+check", []c54Op{set("svc", c54NotServing), {kind: "shutdown"}, set("svc", c54Serving), {kind: "resume"}}, []string{"svc"}, true, b),
 	}
+	scs = append(scs, c54ShutdownRaceScenario("shutdown-vs-setter/1", 1, b), c54ShutdownRaceScenario("shutdown-vs-setter/2", 2, b-1))
 	scs = append(scs, c54Scenario("set3/watch2+clientgone", []c54Op{set("svc", c54NotServing), set("svc", c54Serving), set("svc", c54NotServing)}, []string{"svc", "svc"}, false, b-1, true))
 	vsched.RunScenarios(t, r, []string{P}, scs)
 	r.Sample(P, map[string]any{"scenario": "shutdown-resume/watch1+check", "threads": []string{"setter: Set(svc,NOT_SERVING); Shutdown; Set(svc,SERVING) [ignored]; Resume", "watch0: Watch(svc) with slow Send", "check: Check(svc) x2"}})
